@@ -10,14 +10,14 @@ import (
 
 type simUser struct {
 	nick, ident, host, account, real string
-	chans                           map[string]bool // folded channel names
+	chans                            map[string]bool // folded channel names
 }
 
 type simNet struct {
 	r        *RNG
 	me       string
-	users    map[string]*simUser   // folded nick -> user (everyone on the network, incl. me)
-	joined   map[string]string     // folded chan -> spelling, channels I am in
+	users    map[string]*simUser // folded nick -> user (everyone on the network, incl. me)
+	joined   map[string]string   // folded chan -> spelling, channels I am in
 	modes    map[string]map[byte]string
 	prefixes string // "(qaohv)~&@%+" or "(ov)@+"
 	extJoin  bool
